@@ -48,8 +48,8 @@ def main():
         for k in range(N):
             T = np.sort(np.array([0.0] + [rng.uniform(0.1, 4) for _ in range(4)]))
             frames.append(pd.DataFrame(dict(time=T, **{s: [rng.uniform(0, 6) for _ in T] for s in ['X', 'Y', 'Z']})))
-            ics.append({rng.choice(['X', 'Y']): rng.uniform(1, 8)})
-            pcs.append({rng.choice(['c', 'd']): rng.uniform(0.1, 1.0)})
+            ics.append({rng.choice(['X', 'Y']): rng.choice([rng.uniform(1, 8), 0.0])})       # also an initial condition of exactly 0
+            pcs.append(rng.choice([{rng.choice(['c', 'd']): rng.uniform(0.1, 1.0)}, {}]) if k > 0 else {rng.choice(['c', 'd']): rng.uniform(0.1, 1.0)})
         prior = {'a': ['uniform', 0.1, 2.0], 'b': ['uniform', 0.05, 1.5]}
 
         def setup(frames_, meas_, ics_, pcs_):
